@@ -68,6 +68,62 @@ def s_relations(ctx, src, rs, rep):
     return True
 
 
+def cli_histories(ctx):
+    """the relations on what the COMMAND LINE leaves behind, over edit histories of one source in one output directory: after every step, the document is accepted by
+    --no-dynamic-binding exactly when generate mode accepts it and the support header on disk sets up nothing; the .ui on disk is the same under both modes"""
+    import os, shutil, tempfile
+    from . import c07
+    cli = c07.build_cli()
+    head = "import qmluic.QtWidgets\nQWidget {\n    QLineEdit { id: srcS }\n    QCheckBox { id: srcB }\n    QLabel { id: lbl; %s }\n    QPushButton { id: btn; %s }\n}\n"
+    steps = [("text: \"a\"", ""), ("text: \"a\"; enabled: srcB.checked", ""), ("text: \"a\"", ""), ("text: \"a\"", "onClicked: srcS.clear()"), ("text: \"a\"", ""),
+             ("text: \"b\"", ""), ("text: \"b\"; wordWrap: srcB.checked", "onClicked: lbl.clear()"), ("text: \"b\"; wordWrap: srcB.checked", ""), ("text: \"b\"; wordWrap: true", ""),
+             ("text: srcS.text", ""), ("text: \"b\"; wordWrap: true", "")]
+    orders = [steps, list(reversed(steps)), [steps[0], steps[3], steps[0], steps[1], steps[1], steps[2]]]
+    td = tempfile.mkdtemp(prefix="verif-c14-")
+    n = 0
+    try:
+        for k, hist in enumerate(orders):
+            d = os.path.join(td, "h%d" % k)
+            os.makedirs(d)
+            for j, (a, b) in enumerate(hist):
+                src = head % (a, b)
+                with open(os.path.join(d, "W.qml"), "w") as f:
+                    f.write(src)
+                rc_g, out_g = C.sh([cli, "generate-ui", "--foreign-types", C.REPO + "/contrib/metatypes", "W.qml"], cwd=d, timeout=120)
+                fresh = os.path.join(td, "r%d_%d" % (k, j))
+                os.makedirs(fresh)
+                shutil.copy(os.path.join(d, "W.qml"), fresh)
+                rc_r, out_r = C.sh([cli, "generate-ui", "--no-dynamic-binding", "--foreign-types", C.REPO + "/contrib/metatypes", "W.qml"], cwd=fresh, timeout=120)
+                n += 1
+                ctx.dist("cli-history-step")
+                ctx.count(("cli", k, j), bool(b) or "src" in a)
+                hp = os.path.join(d, "uisupport_w.h")
+                h = open(hp, encoding="utf-8").read() if os.path.exists(hp) else None
+                rep = {"history": [head % x for x in hist[:j + 1]], "theorem_or_correspondence": "C14_reject_iff / S (command line, one output directory)"}
+                if rc_g != 0:
+                    ctx.violation("generate mode refuses a well-formed document at step %d of an edit history (exit %d)" % (j, rc_g), dict(rep, impl_output=out_g[-600:]))
+                    break
+                if h is None:
+                    ctx.violation("generate mode accepted the document but there is no support header on disk (step %d)" % j, rep)
+                    break
+                if (rc_r == 0) != header_is_empty(h):
+                    ctx.violation("step %d of an edit history: --no-dynamic-binding %s the document while the support header that generate mode leaves on disk sets up %s"
+                                  % (j, "accepts" if rc_r == 0 else "refuses", "nothing" if header_is_empty(h) else "bindings or callbacks"),
+                                  dict(rep, impl_output={"header_on_disk": h[:1500], "reject_mode": out_r[-400:]}))
+                    break
+                if os.path.exists(os.path.join(fresh, "uisupport_w.h")):
+                    ctx.violation("--no-dynamic-binding leaves a support header on disk (step %d): a header is produced in generate mode only" % j, rep)
+                    break
+                if rc_r == 0:
+                    a_ui, b_ui = open(os.path.join(d, "w.ui"), "rb").read(), open(os.path.join(fresh, "w.ui"), "rb").read()
+                    if a_ui != b_ui:
+                        ctx.violation("step %d of an edit history: the .ui on disk differs between generate and --no-dynamic-binding" % j, rep)
+                        break
+    finally:
+        shutil.rmtree(td, ignore_errors=True)
+    ctx.coverage["cli_history_steps"] = n
+
+
 def run(ctx):
     ctx.proof_leg(TARGETS, PINS, k_targets=U.K_TARGETS)
     vh = ctx.need_harness()
@@ -148,6 +204,8 @@ def run(ctx):
                     break
                 terms.append((U.coq_case(m, roots[i]), U.coq_expected(obs)))
                 idx.append((i, m))
+    if not ctx.replay:
+        cli_histories(ctx)
     ctx.coverage.update(stats)
     ctx.sample({"qml": docs[0]})
     ctx.coverage["compared_with_model"] = len(terms)
